@@ -1,4 +1,5 @@
 import MtailVerif.Proofs.Buckets
+import MtailVerif.Generated.VM
 /-! # C21 — Histograms count every observation in exactly one bucket -/
 namespace MtailVerif.C21
 open MtailVerif.Buckets
@@ -106,5 +107,15 @@ example :
     ((fresh (0 : Nat) [.num 4607182418800017408, .num 4611686018427387904]).map
       (fun d => (observeAll (fun s _ => s + 1) d [.num 4602678819172646912, .nan, .num 4613937818241073152]).buckets.map (·.2)))
       = some [1, 0, 2] := by decide
+
+/-- Obligation over regenerated facts: an observation that reaches the VM as text is read by the
+    library's 64-bit float parser (the eleventh conversion of vm.go, in `sset` on a histogram) — a
+    zero-padded decimal is the decimal it spells -/
+theorem text_observation_shape :
+    Generated.VM.libraryConversions =
+      ["strconv.ParseInt(n, 10, 64)", "strconv.ParseFloat(n, 64)", "strconv.FormatFloat(n, 'G', -1, 64)",
+       "strconv.Itoa(n)", "strconv.FormatInt(n, 10)", "strconv.FormatBool(n)", "strconv.ParseFloat(rxS, 64)",
+       "strconv.ParseFloat(rxS, 64)", "strconv.ParseFloat(lxS, 64)", "strconv.ParseInt(lxS, 10, 32)",
+       "strconv.ParseFloat(value, 64)", "strconv.ParseInt(str, base, 64)", "strconv.ParseFloat(str, 64)"] := by decide
 
 end MtailVerif.C21
